@@ -525,9 +525,16 @@ def _run_models(ctx, cases):
     nwrap = 0
     # the program model is run on every fork-isolated case and on every case up to 8x8 bins (its cost grows faster
     # than that of the list-based models); the others are counted
-    psel = [j for j, k in enumerate(where) if cases[k].get("fork") or cases[k].get("intmax")
-            or len(cases[k]["p"]) * len(cases[k]["q"]) <= 64]
-    ctx.count("as-written program not run (more than 8x8 bins; variants)", len(args) - len(psel))
+    # quick tier: of the in-process cases up to 8x8 bins only every third one (deterministic sample; all of them in
+    # the thorough tier); every fork-isolated case always
+    quick = getattr(ctx, "tier", "quick") == "quick"
+    small = lambda k: len(cases[k]["p"]) * len(cases[k]["q"]) <= 64
+    forked = lambda k: bool(cases[k].get("fork") or cases[k].get("intmax"))
+    psel = [j for j, k in enumerate(where) if forked(k) or (small(k) and (not quick or k % 3 == 0))]
+    ctx.count("as-written program not run (more than 8x8 bins; variants)",
+              sum(1 for k in where if not forked(k) and not small(k)))
+    ctx.count("as-written program not run (quick-tier sample: 1 case in 3; variants)",
+              sum(1 for k in where if not forked(k) and small(k) and quick and k % 3 != 0))
     pres = dict(zip(psel, ctx.run_model("entry_p32", [args[j] for j in psel])))
     for j, k in enumerate(where):
         if j not in pres:
@@ -911,7 +918,7 @@ def shrink_candidates(case):
 
 MANIFEST = {
     "level_text": (
-        "Machine-checked proofs (Coq 8.16, 55 theorems, all closed under the global context). (a) The extracted certificate "
+        "Machine-checked proofs (Coq 8.16, 58 theorems, all closed under the global context). (a) The extracted certificate "
         "checker emd_cert_ok is sound for all sizes and inputs: acceptance of (P, Q, C, penalty, d, F, alpha, beta, gamma) "
         "implies that d is exactly the transportation optimum plus penalty*|sum P - sum Q| of the property text (also against "
         "fractional flows) and that F is a feasible integral flow whose cost reproduces d; the value is unique; zero padding "
@@ -952,7 +959,15 @@ MANIFEST = {
         "inputs): Model/EmdP.v is the whole pipeline as a program over int operations, and whenever the decidable hypothesis "
         "no_wrap_b holds (every int operation of the exact run is representable) executing it as written for int gives exactly "
         "the exact result. no_wrap_b is evaluated for every case and variant (true for ~98.8% of them); there the as-written "
-        "program must return the implementation's distance and flow, and F25 may only be claimed where it is false."),
+        "program must return the implementation's distance and flow, and F25 may only be claimed where it is false. "
+        "C10_prog_equals_ll (proved): the exact run of that program IS the line-level model the optimality theorems are "
+        "about, so the chain int32 code as written = program model (correspondence) = exact program = line-level model is "
+        "closed; composed at the solver level without open premise (C10_mcf_int32_optimal_below_bound: below the bound and "
+        "with the flag clear, what min_cost_flow as written returns is the Done state whose capacity flow is of minimum "
+        "cost) and end to end as C10_emd_int32_correct_below_bound_partial, whose remaining premises are exactly: flag "
+        "clear (per case) and read_back_bookkeeping with x_caps_consistent (open). In the quick tier the program model is "
+        "run on every fork-isolated case and on one in three of the other cases up to 8x8 bins; on all of them in the "
+        "thorough tier."),
     "technique": "Coq proof of a certificate checker run on the implementation's output + two executable models (certifying, and line-level with exact flow correspondence) + run-time-checked hypothesis flag",
     "design_ref": "DESIGN.md section 7, C10",
 }
